@@ -13,7 +13,7 @@ import random
 from . import scn as S
 
 GPATHS = [[], [1], [1, 2], [3], [1, 4]]
-SIDS = ["Sa", "Sb", "Sc", "Sd", "Se"]
+SIDS = ["Sa", "Sb", "Sc", "Sd", "Se", "Sf", "Sg", "Sh", "Si", "Sj", "Sk", "Sl"]
 
 
 def random_scenario(rng: random.Random, nsims=(2, 4), nconns=(1, 5), until=(2, 4), groups=True, siblings=True,
@@ -71,7 +71,13 @@ def random_scenario(rng: random.Random, nsims=(2, 4), nconns=(1, 5), until=(2, 4
             s["initev"] = True
         elif s["type"] == "hybrid" and rng.random() < 0.1:
             s["initev"] = True  # set_initial_event(sid, 0) on a hybrid simulator: still exactly one step at time 0
-    return S.normalize({"sims": sims, "conns": conns, "until": rng.randint(*until), "maxloop": maxloop})
+    scn = {"sims": sims, "conns": conns, "until": rng.randint(*until), "maxloop": maxloop}
+    # (drawn last, so that the scenarios themselves do not depend on these options)
+    if rng.random() < 0.3:
+        scn["multipair"] = True  # connections between the same entities with the same options are made by ONE connect() call
+    if rng.random() < 0.05:
+        scn["until"] = 1
+    return S.normalize(scn)
 
 
 def variants(scn, lazy=(True, False), cache=(True, False)):
